@@ -346,7 +346,7 @@ package ast
 //@ invariant !isStmtKind(self.RHS)
 //@ struct ParenExpr
 //@ props C13 C05
-//@ invariant !isStmtKind(self.Param)
+//@ invariant !isStmtKind(self.Param) && self.Param != nil && self.Param.NodeType != TypeAssignmentExpr
 //@ struct InExpr
 //@ props C13 C05
 //@ invariant !isStmtKind(self.LHS) && !isStmtKind(self.RHS)
